@@ -164,7 +164,7 @@ def config(tier):
 def choose_unguarded(rng, prop):
     x = rng.random()
     if x < P_UNGUARDED:
-        return sorted(T.GUARDS)
+        return sorted(T.active_guards())
     if x < P_LIFT:
         return T.lifted_guards(prop)
     return []
@@ -234,6 +234,9 @@ def generate(rng, tier, compare=False):
                 f.append(d + "-x")  # need not exist
             rng.shuffle(f)
             plan["filters"][rng.randrange(3)] = f
+        if rng.random() < 0.3:
+            # the tree root as a filter path (selects everything, also every unversioned file)
+            plan["filters"][rng.randrange(3)] = [""] + ([rng.choice(names)] if rng.random() < 0.5 else [])
     return plan
 
 
@@ -544,6 +547,8 @@ def execute(sim, plan, extra=None):
                 tb = "".join(traceback.format_exception(type(raised), raised, raised.__traceback__)[-6:])
                 T.fail(sim, "C09", "op_raised", [fl, op["o"], type(raised).__name__], "%s raised %r\n%s" % (json.dumps(op), raised, tb))
             model.apply(op)
+            if plan.get("unguarded"):
+                sim.notes["territory_state"] = model.territory_state()
             sim.probe("op_" + op["o"])
             if op["o"] in T.STATE_CHANGING:
                 done += 1
@@ -564,4 +569,5 @@ def execute(sim, plan, extra=None):
     sim.nontrivial = done >= 3
     if sim.notes.get("prop") is None:
         sim.notes.pop("territory", None)
+        sim.notes.pop("territory_state", None)
     return tree, model
